@@ -1171,6 +1171,27 @@ class DiskRefsContainer(RefsContainer):
                 f.abort()
             self._invalidate_packed_refs_cache()
 
+    def _check_packed_refs_collision(
+        self, realname: Ref, filename: bytes
+    ) -> dict[Ref, ObjectID]:
+        """Refuse a ref name that collides, as file versus directory, with a packed ref.
+
+        Returns: the packed refs that were consulted.
+        """
+        # make sure none of the ancestor folders is in packed refs
+        probe_ref = Ref(os.path.dirname(realname))
+        packed_refs = self.get_packed_refs()
+        while probe_ref:
+            if packed_refs.get(probe_ref, None) is not None:
+                raise NotADirectoryError(filename)
+            probe_ref = Ref(os.path.dirname(probe_ref))
+        # ... nor any packed ref below this one (its directory need not exist)
+        dir_prefix = realname + b"/"
+        for packed_name in packed_refs:
+            if packed_name.startswith(dir_prefix):
+                raise IsADirectoryError(filename)
+        return packed_refs
+
     def set_symbolic_ref(
         self,
         name: Ref,
@@ -1193,6 +1214,7 @@ class DiskRefsContainer(RefsContainer):
         self._check_refname(name)
         self._check_refname(other)
         filename = self.refpath(name)
+        self._check_packed_refs_collision(name, filename)
         ensure_dir_exists(os.path.dirname(filename))
         f = GitFile(filename, "wb")
         try:
@@ -1248,18 +1270,7 @@ class DiskRefsContainer(RefsContainer):
             realname = name
         filename = self.refpath(realname)
 
-        # make sure none of the ancestor folders is in packed refs
-        probe_ref = Ref(os.path.dirname(realname))
-        packed_refs = self.get_packed_refs()
-        while probe_ref:
-            if packed_refs.get(probe_ref, None) is not None:
-                raise NotADirectoryError(filename)
-            probe_ref = Ref(os.path.dirname(probe_ref))
-        # ... nor any packed ref below this one (its directory need not exist)
-        dir_prefix = realname + b"/"
-        for packed_name in packed_refs:
-            if packed_name.startswith(dir_prefix):
-                raise IsADirectoryError(filename)
+        packed_refs = self._check_packed_refs_collision(realname, filename)
 
         ensure_dir_exists(os.path.dirname(filename))
         with GitFile(filename, "wb") as f:
@@ -1337,18 +1348,7 @@ class DiskRefsContainer(RefsContainer):
         self._check_refname(realname)
         filename = self.refpath(realname)
 
-        # make sure none of the ancestor folders is in packed refs
-        probe_ref = Ref(os.path.dirname(realname))
-        packed_refs = self.get_packed_refs()
-        while probe_ref:
-            if packed_refs.get(probe_ref, None) is not None:
-                raise NotADirectoryError(filename)
-            probe_ref = Ref(os.path.dirname(probe_ref))
-        # ... nor any packed ref below this one (its directory need not exist)
-        dir_prefix = realname + b"/"
-        for packed_name in packed_refs:
-            if packed_name.startswith(dir_prefix):
-                raise IsADirectoryError(filename)
+        packed_refs = self._check_packed_refs_collision(realname, filename)
 
         ensure_dir_exists(os.path.dirname(filename))
         with GitFile(filename, "wb") as f:
